@@ -11,6 +11,24 @@ import (
 
 type commandProposal struct {
 	ch chan proposalResult
+	// region and term identify the raft group and the leadership term in
+	// which the proposal was submitted. Request IDs are only unique per store,
+	// so an applied entry may complete a local proposal only if this store
+	// appended it itself: same region and an entry term equal to the term in
+	// which this store was leader when it accepted the proposal. Zero means
+	// "unknown" and matches any entry.
+	region uint64
+	term   uint64
+}
+
+func (p *commandProposal) owns(region, term uint64) bool {
+	if p.region != 0 && region != 0 && p.region != region {
+		return false
+	}
+	if p.term != 0 && term != 0 && p.term != term {
+		return false
+	}
+	return true
 }
 
 type proposalResult struct {
@@ -43,6 +61,12 @@ func (cp *commandPipeline) nextProposalID() uint64 {
 }
 
 func (cp *commandPipeline) registerProposal(id uint64) (*commandProposal, error) {
+	return cp.registerProposalAt(id, 0, 0)
+}
+
+// registerProposalAt registers a proposal submitted to the given region while
+// this store led it in the given raft term.
+func (cp *commandPipeline) registerProposalAt(id, region, term uint64) (*commandProposal, error) {
 	if cp == nil || id == 0 {
 		return nil, nil
 	}
@@ -51,7 +75,7 @@ func (cp *commandPipeline) registerProposal(id uint64) (*commandProposal, error)
 	if _, exists := cp.proposals[id]; exists {
 		return nil, fmt.Errorf("commandPipeline: duplicate proposal id %d", id)
 	}
-	prop := &commandProposal{ch: make(chan proposalResult, 1)}
+	prop := &commandProposal{ch: make(chan proposalResult, 1), region: region, term: term}
 	cp.proposals[id] = prop
 	return prop, nil
 }
@@ -66,12 +90,25 @@ func (cp *commandPipeline) removeProposal(id uint64) {
 }
 
 func (cp *commandPipeline) completeProposal(id uint64, resp *pb.RaftCmdResponse, err error) {
+	cp.completeProposalFrom(id, 0, 0, resp, err)
+}
+
+// completeProposalFrom hands the result of an applied entry (identified by its
+// region and raft term) to the local proposal registered under id, if that
+// proposal is the origin of the entry. Entries proposed by other stores, or by
+// an earlier leadership of this store, carry request IDs from a different
+// counter and must not complete an unrelated local proposal.
+func (cp *commandPipeline) completeProposalFrom(id, region, term uint64, resp *pb.RaftCmdResponse, err error) {
 	if cp == nil || id == 0 {
 		return
 	}
 	cp.mu.Lock()
 	prop := cp.proposals[id]
-	delete(cp.proposals, id)
+	if prop != nil && !prop.owns(region, term) {
+		prop = nil
+	} else {
+		delete(cp.proposals, id)
+	}
 	cp.mu.Unlock()
 	if prop == nil {
 		return
@@ -104,10 +141,10 @@ func (cp *commandPipeline) applyEntries(entries []myraft.Entry) error {
 		resp, applyErr := cp.applier(req)
 		if applyErr != nil {
 			requestID := req.GetHeader().GetRequestId()
-			cp.completeProposal(requestID, nil, applyErr)
+			cp.completeProposalFrom(requestID, req.GetHeader().GetRegionId(), entry.Term, nil, applyErr)
 			return fmt.Errorf("commandPipeline: apply request %d failed: %w", requestID, applyErr)
 		}
-		cp.completeProposal(req.GetHeader().GetRequestId(), resp, nil)
+		cp.completeProposalFrom(req.GetHeader().GetRequestId(), req.GetHeader().GetRegionId(), entry.Term, resp, nil)
 	}
 	return nil
 }
